@@ -30,6 +30,34 @@
 #include <vector>
 #include <algorithm>
 
+#ifdef SPLINETRAJECTORY_VERIF
+// Verification hook (off unless SPLINETRAJECTORY_VERIF is defined): reports the completion of a spline (re)build to a
+// process-global observer, which reads the object's state through its public accessors.  No effect on results.
+namespace SplineTrajectory
+{
+    namespace verif
+    {
+        typedef void (*BuildObserver)(int order, int dim, const void *spline);
+        inline BuildObserver &buildObserver()
+        {
+            static BuildObserver f = nullptr;
+            return f;
+        }
+    }
+}
+#define ST_VERIF_BUILT(order, dim, obj)                                   \
+    do                                                                    \
+    {                                                                     \
+        if (::SplineTrajectory::verif::buildObserver())                   \
+            ::SplineTrajectory::verif::buildObserver()(order, dim, obj);  \
+    } while (0)
+#else
+#define ST_VERIF_BUILT(order, dim, obj) \
+    do                                  \
+    {                                   \
+    } while (0)
+#endif
+
 namespace SplineTrajectory
 {
     template <typename T>
@@ -1124,6 +1152,7 @@ namespace SplineTrajectory
             coeffs_ = solveSpline();
             is_initialized_ = true;
             initializePPoly();
+            ST_VERIF_BUILT(3, DIM, this);
         }
 
         void convertTimePointsToSegments(const std::vector<double> &t_points)
@@ -1386,6 +1415,7 @@ namespace SplineTrajectory
             coeffs_ = solveQuintic();
             is_initialized_ = true;
             initializePPoly();
+            ST_VERIF_BUILT(5, DIM, this);
         }
 
     public:
@@ -2399,6 +2429,7 @@ namespace SplineTrajectory
             coeffs_ = solveSepticSpline();
             is_initialized_ = true;
             initializePPoly();
+            ST_VERIF_BUILT(7, DIM, this);
         }
 
     public:
